@@ -60,9 +60,26 @@ static Plan c18_gen(uint64_t seed, int tier, uint64_t index) {
     for (int i = 0; i < n; i++) { p.ops.push_back(Op("send", (int64_t) r.below(2), LENS[r.below(sizeof LENS / sizeof LENS[0])], (int64_t) r.below(2))); if (r.chance(1, 2)) { p.ops.push_back(Op("pump")); } }
     if (r.chance(1, 2)) { p.ops.push_back(Op("close", (int64_t) r.below(2))); }
     if (r.chance(1, 3)) { p.cfg["eager"] = 1; }
+    if (r.chance(1, 4)) { p.cfg["eager_srv"] = 1; }
     p.cfg["part_c"] = (int64_t) (1 + r.below(PART_N - 1)); p.cfg["part_s"] = (int64_t) (1 + r.below(PART_N - 1));
     p.cfg["drain_c"] = (int64_t) r.below(DRAIN_N); p.cfg["drain_s"] = (int64_t) r.below(DRAIN_N);
     return p;
+}
+
+// aimed plans: "server speaks first" on a first connection whose session the second connection tries to resume, every partition of the client's inbound stream
+static std::vector<Plan> c18_fixed(int tier) {
+    (void) tier;
+    std::vector<Plan> v;
+    for (int ver = 0; ver < 3; ver++) { for (int tk = 0; tk < 2; tk++) { for (int part = 1; part < PART_N; part++) { for (int es = 0; es < 2; es++) {
+        Plan p; p.seed = 180000 + (uint64_t) (((ver * 2 + tk) * PART_N + part) * 2 + es);
+        p.cfg["ver"] = ver; p.cfg["tickets"] = tk; p.cfg["conns"] = 2; p.cfg["eager_srv"] = 1; p.cfg["eager"] = es;
+        if (ver == 2) { p.cfg["suite"] = TLS_AES_128_GCM_SHA256; p.cfg["sid_kind"] = KK_EC256; }
+        else { p.cfg["suite"] = ver == 1 ? TLS_ECDHE_RSA_WITH_AES_256_GCM_SHA384 : TLS_RSA_WITH_AES_128_CBC_SHA; }
+        p.cfg["part_c"] = part; p.cfg["part_s"] = 1 + (part % (PART_N - 1)); p.cfg["drain_c"] = part % DRAIN_N; p.cfg["drain_s"] = (part + 1) % DRAIN_N;
+        p.ops.push_back(Op("send", 0, 100, 0)); p.ops.push_back(Op("send", 1, 1000, 1)); p.ops.push_back(Op("pump")); p.ops.push_back(Op("close", 0));
+        v.push_back(p);
+    } } } }
+    return v;
 }
 
 // record boundaries of a TLS byte stream (best effort: stops at the first incomplete header)
@@ -165,13 +182,18 @@ static RunResult c18_exec(const Plan &p) {
             if (!w.connect()) { res.harness_error = true; res.detail = "connect failed"; break; }
             ConnLog c; c.cfg[0] = w.cli->cfg; c.cfg[1] = w.srv->cfg;
             bool eager = last && p.get("eager") != 0;
-            size_t eager_ops = 0;
-            if (eager) {
+            bool eager_srv = p.get("eager_srv") != 0;      // "server speaks first": the server application writes the moment its side completes, on every connection
+            size_t eager_ops = 0; bool srv_spoke = false;
+            if (eager || eager_srv) {
                 // the client application writes the moment its side reports completion - before its last flight has left the output
                 // buffer - so the data is coalesced with (TLS 1.3 / resumed) Finished and reaches the server without a causality barrier in between
                 for (int step = 0; step < 400; step++) {
                     bool moved = w.pump_once();
-                    if (w.cli->is_complete() && !eager_ops) {
+                    if (eager_srv && w.srv->is_complete() && !srv_spoke) {
+                        Bytes pl = tagged_payload(1, 200 + ci, 41); w.srv->app_send(pl.data(), pl.size()); srv_spoke = true;
+                        res.count("probe.eager_server_send");
+                    }
+                    if (eager && w.cli->is_complete() && !eager_ops) {
                         int idx = 0;
                         for (auto &op : p.ops) { if (op.k == "send" && (op.a & 1) == 0) { Bytes pl = tagged_payload(0, 100 + idx++, (size_t) op.b); w.cli->app_send(pl.data(), pl.size(), op.c & 1); eager_ops++; if (eager_ops >= 2) { break; } } }
                         if (!eager_ops) { Bytes pl = tagged_payload(0, 100, 37); w.cli->app_send(pl.data(), pl.size()); eager_ops = 1; }
@@ -267,4 +289,4 @@ static ModuleRegistrar reg({ "C18", "chunk", "exploration",
     { "transport (in-memory stream; replay phase has no live peer)", "applications", "clock (frozen)", "entropy (/dev/urandom, per-node streams)", "allocator front-end" },
     { "which API call reports HANDSHAKE_COMPLETE vs APP_DATA first is not compared (documented to vary when Finished and data are coalesced); 'complete before first delivery' is",
       "application actions are replayed at the same inbound stream position as in the reference run" },
-    "asan", nullptr, false });
+    "asan", c18_fixed, false });
